@@ -443,7 +443,14 @@ fn parse_basic_number<'a, I: Interrupt>(
 			power_digits.reverse();
 
 			for (i, digit) in power_digits.into_iter().enumerate() {
-				let num = digit * 10u64.pow(u32::try_from(i).unwrap());
+				if digit == 0 {
+					continue;
+				}
+				let num = u32::try_from(i)
+					.ok()
+					.and_then(|i| 10u64.checked_pow(i))
+					.and_then(|p| p.checked_mul(digit))
+					.ok_or(FendError::ExponentTooLarge)?;
 				exponent = exponent.add(num.into(), decimal_separator, int)?;
 			}
 
